@@ -310,7 +310,7 @@ def sanitizer_env(outdir):
 
 
 def run_workers(exe, outdir, seed, cases, tier, nworkers=None, extra_args=(), env_extra=None,
-                per_worker_env=None, timeout=None):
+                per_worker_env=None, timeout=None, wrapper=()):
     """Run nworkers copies of a harness; worker k owns the indices i with i % n == k."""
     n = nworkers or NCPU
     n = max(1, min(n, cases))
@@ -328,8 +328,8 @@ def run_workers(exe, outdir, seed, cases, tier, nworkers=None, extra_args=(), en
         e = dict(env)
         if per_worker_env:
             e.update(per_worker_env(k))
-        cmd = [exe, "--seed", str(seed), "--cases", str(cases), "--worker", str(k), "--nworkers", str(n),
-               "--tier", tier, "--out", outdir] + list(extra_args)
+        cmd = list(wrapper) + [exe, "--seed", str(seed), "--cases", str(cases), "--worker", str(k), "--nworkers", str(n),
+                                "--tier", tier, "--out", outdir] + list(extra_args)
         lf = open(os.path.join(outdir, "w%d.log" % k), "w")
         procs.append((k, subprocess.Popen(cmd, env=e, stdout=lf, stderr=subprocess.STDOUT, cwd=outdir), lf, cmd))
     failed = []
@@ -437,6 +437,24 @@ def classify_crash(rec):
         if "(" in fn:      # clang prints the whole signature
             fn = re.findall(r"(\w+)\s*\(", fn)[0]
         return "assert@%s:%s" % (fn, re.sub(r"\s+", "", m.group(4))[:80])
+    m = re.search(r"^==\d+== (Invalid (?:read|write) of size \d+|Conditional jump or move depends on uninitialised value\(s\)|"
+                  r"Use of uninitialised value of size \d+|Invalid free\(\).*|Mismatched free\(\).*|Syscall param \S+ (?:points to|contains) uninitialised byte\(s\)|"
+                  r"Source and destination overlap in \w+.*|Argument '\w+' of function \w+ has a fishy.*)", text, re.M)
+    if m:
+        kind = re.sub(r"\d+", "N", m.group(1)).replace(" ", "_")[:60]
+        fr = []
+        for line in text[m.start():].splitlines()[1:14]:
+            f = re.match(r"^==\d+==\s+(?:at|by) 0x[0-9A-F]+: (\S+) \((\S+?):\d+\)", line)
+            if not f:
+                if fr and not line.strip("= 0123456789"):
+                    break
+                continue
+            fn, fil = f.group(1), f.group(2)
+            if fil.endswith(".c") and not fil.startswith(("c0", "c1", "c2", "runner", "gen", "hist", "canon", "wf", "snap")) and fn not in fr:
+                fr.append(fn)
+            if len(fr) >= 2:
+                break
+        return "valgrind:%s@%s" % (kind, "<".join(fr) if fr else "?")
     m = re.search(r"WARNING: MemorySanitizer: (\S+)", text)
     if m:
         fr = _repo_frames(text[m.start():])
